@@ -19,11 +19,22 @@ built by this file from the records (never from the code under test):
                        get_data() of the result: records in genome order, non-overlapping, inside the chromosome,
                        expanding to exactly the dense result (Interval for boolean results, BedGraph otherwise)
 
-All float values are small dyadic rationals, so sums and products are exact in every evaluation order.
+  G  inexact floats    A, D, F again with run values that are NOT exactly summable in binary floating point (0.1, 0.7, 0.2
+                       next to 1234567.891, +-inf, NaN for A): the dense expansion, get_data() and every expression result
+                       are compared by float64 bit pattern (no tolerance; only np.sum of floats, whose evaluation order is not
+                       prescribed, is compared to the correctly rounded sum with relative 1e-9)
+  H  big coordinates   B, C, E, F on contigs of 2**31-1 .. 3e9 bases and on genomes whose concatenation is 2**31-1 .. 8.3e9
+                       bases (every chromosome may be < 2**31: hg38) with a handful of intervals; the dense array is never
+                       built: runs, exact sums, probed positions and short dense windows around the breakpoints are compared
+                       with the piecewise constant function the records describe
+
+In A-F all float values are small dyadic rationals, so sums and products are exact in every evaluation order.
 """
 import itertools
+import math
 import operator
 import os
+import struct
 
 from .common import Collector, TmpDir
 
@@ -267,8 +278,10 @@ def chrom_strings(col_chrom):
     return [c.to_string() for c in col_chrom]
 
 
-def check_to_dict(col, arr, genome, dense, sig, case, what="to_dict"):
-    """arr.to_dict(): keys = chromosomes in genome order, each value has the chromosome size and equals dense"""
+def check_to_dict(col, arr, genome, dense, sig, case, what="to_dict", eq=None):
+    """arr.to_dict(): keys = chromosomes in genome order, each value has the chromosome size and equals dense
+    (eq: the equality of two flat lists; default lists_equal, the float scopes G pass bits_equal)"""
+    eq = eq or lists_equal
     import numpy as np
     d = col.guarded(lambda: arr.to_dict(), sig + ":" + what, case)
     if d is None:
@@ -281,7 +294,7 @@ def check_to_dict(col, arr, genome, dense, sig, case, what="to_dict"):
     for n, s in genome:
         got = np.asarray(d[n]).tolist()
         good &= col.check(len(got) == s, sig + ":wrong-length", case, "%s: len %r size %r" % (n, len(got), s))
-        good &= col.check(lists_equal(got, dense[n]), sig + ":wrong-dense", case,
+        good &= col.check(eq(got, dense[n]), sig + ":wrong-dense", case,
                           "%s: got %r expected %r" % (n, got, dense[n]))
     return good
 
@@ -304,10 +317,11 @@ def check_histogram(col, arr, genome, dense, sig, case, kws=({"bins": 4, "range"
                   "%r: got %r expected %r" % (kw, h[1], eh[1]))
 
 
-def check_backconversion(col, arr, genome, dense, sig, case, is_bool=None, data=None):
+def check_backconversion(col, arr, genome, dense, sig, case, is_bool=None, data=None, eq=None):
     """get_data(): records in genome order, non-overlapping, inside the chromosome, expanding to `dense`.
     Boolean arrays give intervals (expand: True inside, False outside), others give bedGraph records."""
     import numpy as np
+    eq = eq or lists_equal
     if data is None:
         data = col.guarded(lambda: arr.get_data(), sig + ":get_data", case)
         if data is None:
@@ -340,7 +354,7 @@ def check_backconversion(col, arr, genome, dense, sig, case, is_bool=None, data=
     col.check(inside, sig + ":get_data:record-outside-chromosome", case, "rows %r sizes %r" % (rs[:8], sizes))
     if inside:
         back = dense_genome(genome, rs, False if is_bool else 0)
-        same = all(lists_equal(back[n], dense[n]) for n, _ in genome)
+        same = all(eq(back[n], dense[n]) for n, _ in genome)
         col.check(same, sig + ":get_data:expands-to-different-array", case, "rows %r expand to %r expected %r" % (rs[:8], back, dense))
     return data
 
@@ -680,12 +694,12 @@ class ExprEnv:
         self.cache = {}
         self.bad = set()
 
-    def check_leaves(self, col, leafcase):
+    def check_leaves(self, col, leafcase, prefix="expr", eq=None):
         for name in ("A", "B", "M", "K"):
-            case = dict(leafcase, kind="expr", expr=L(name))
+            case = dict(leafcase, kind=prefix, expr=L(name))
             dense = self.split(self.np[name].tolist())
             if not check_to_dict(col, self.bnp[name], self.genome, dense,
-                                 "expr:leaf:" + ("track" if name in "AB" else "mask"), case):
+                                 prefix + ":leaf:" + ("track" if name in "AB" else "mask"), case, eq=eq):
                 self.bad.add(name)
 
     def split(self, flat):
@@ -841,9 +855,717 @@ def run_expressions(col, tier):
                     return
 
 
+# --------------------------------------------------------------------------------------------- G  floats that are not exactly summable
+# Scopes A-F use small dyadic rationals only; here the run values are ordinary decimal fractions of very different
+# magnitude (0.1 next to 1234567.891), +-inf and (run-length level only) NaN.  "Exact" is equality of the float64 bit
+# patterns, never a tolerance: the dense expansion has to reproduce every run value bit for bit and every gap as 0.
+def fbits(x):
+    """float64 bit pattern of a number; the only identifications are the ones NumPy's == makes for results of
+    operations: every NaN is one class, -0.0 is 0.0"""
+    x = float(x)
+    if x != x:
+        return "nan"
+    if x == 0:
+        return 0
+    return struct.unpack("<Q", struct.pack("<d", x))[0]
+
+
+def bits_equal(got, exp):
+    return len(got) == len(exp) and all(fbits(g) == fbits(e) for g, e in zip(got, exp))
+
+
+INF = float("inf")
+FBIT_PALETTES = [["0.1", "1234567.891", "0.7"], ["0.2", "inf", "0.001"], ["nan", "17.17", "-inf"], ["0.3", "-0.1", "2.3"]]
+FBIT_UINT = {"float64": "uint64", "float32": "uint32", "float16": "uint16"}
+
+
+def check_to_array_bits(col, case):
+    """GenomicRunLengthArray(events, values).to_array() repeats the bit pattern of every run value (strict: NaN payload
+    and sign of zero included - nothing is computed here, the values are only copied)"""
+    import numpy as np
+    from bionumpy.arithmetics.intervals import GenomicRunLengthArray
+    runs, dt = case["runs"], case["dtype"]
+    col.case(case, contract="GenomicRunLengthArray.to_array:float-bits")
+    events = np.array([0] + list(itertools.accumulate(runs)), dtype=int)
+    with np.errstate(over="ignore"):        # 1234567.891 is inf in float16: still a value to be copied
+        values = np.array([float(v) for v in case["values"]], dtype=dt)
+    u = FBIT_UINT[dt]
+    exp = [b for b, n in zip(values.view(u).tolist(), runs) for _ in range(n)]
+    sig = "to_array:float-bits"
+    rla = col.guarded(lambda: GenomicRunLengthArray(events, values), sig + ":construct", case)
+    if rla is None:
+        return
+    got = col.guarded(lambda: np.asarray(rla.to_array()), sig, case)
+    if got is None:
+        return
+    col.check(len(got) == sum(runs), sig + ":wrong-length", case, "len %r expected %r" % (len(got), sum(runs)))
+    if not col.check(got.dtype == values.dtype, sig + ":dtype-changed", case, "got %r expected %r" % (got.dtype, values.dtype)):
+        return
+    col.check(got.view(u).tolist() == exp, sig + ":not-bit-exact", case,
+              "got %r (bits %r) expected %r (bits %r)" % (got.tolist(), got.view(u).tolist(),
+                                                          [v for v, n in zip(values.tolist(), runs) for _ in range(n)], exp))
+
+
+def gen_to_array_bits(tier):
+    quick = tier == "quick"
+    max_n = 5 if quick else 7
+    for dt in FBIT_UINT:
+        for pal in (FBIT_PALETTES[:3] if quick else FBIT_PALETTES):
+            for n in range(1, max_n + 1):
+                for runs in compositions(n):
+                    k = len(runs)
+                    for f in ((lambda i: pal[i % 3]), (lambda i: pal[(i // 2) % 3]), (lambda i: pal[(i + 1) % 3])):
+                        yield {"kind": "to_array_bits", "runs": runs, "values": [f(i) for i in range(k)], "dtype": dt}
+
+
+FX_PATTERNS = {
+    # name -> (finite?, i -> value): neighbours differ by orders of magnitude, so no running sum reproduces them
+    "fx-mixed": (True, lambda i: (0.1, 1234567.891, 0.7, 2.3)[i % 4]),
+    "fx-small": (True, lambda i: (0.2, 0.001, 17.17, 0.3)[i % 4]),
+    "fx-neg": (True, lambda i: (-0.1, 0.7, -1234.5678, 0.1)[i % 4]),
+    "fx-inf": (False, lambda i: (0.1, INF, 0.7, -INF)[i % 4]),
+}
+FX_HIST = ({"bins": [-2000, 0, 0.1, 0.7, 10, 1e7]}, {"bins": 5, "range": (0, 2.5)})
+
+
+def fx_records(names, lays, pattern):
+    f = FX_PATTERNS[pattern][1]
+    recs, i = [], 0
+    for n, lay in zip(names, lays):
+        for s, e in lay:
+            recs.append((n, s, e, f(i)))
+            i += 1
+    return recs
+
+
+def approx_sum_ok(got, dense_flat):
+    """np.sum of floats has no prescribed evaluation order: relative 1e-9 against the correctly rounded sum"""
+    exp = math.fsum(dense_flat)
+    scale = math.fsum(abs(x) for x in dense_flat)
+    return all(abs(float(g) - exp) <= 1e-9 * scale + 1e-300 for g in got)
+
+
+def check_ftrack(col, case, tmp=None):
+    """bedGraph track with inexact float values -> genomic array: every observation of the dense array is bit-exact"""
+    import numpy as np
+    from bionumpy.genomic_data import GenomicArray
+    genome = [tuple(g) for g in case["genome"]]
+    recs = [tuple(r) for r in case["records"]]
+    route, finite = case["route"], all(abs(r[3]) != INF for r in recs)
+    dense = dense_genome(genome, recs, 0.0)
+    col.case(case, contract="float-track:" + route)
+    g = make_genome(genome)
+    sig = "float-track:%s" % route
+    if route == "stream":
+        return check_ftrack_stream(col, case, g, genome, recs, dense, sig)
+    if route == "get_track":
+        t = col.guarded(lambda: g.get_track(build_bedgraph(recs, "float")), sig, case)
+    elif route == "from_bedgraph":
+        t = col.guarded(lambda: GenomicArray.from_bedgraph(build_bedgraph(recs, "float"), g.get_genome_context()), sig, case)
+    elif route == "file":
+        path = os.path.join(tmp, "f.bdg")
+        with open(path, "w") as f:
+            f.write(bedgraph_text(recs, "float"))
+        t = col.guarded(lambda: g.read_track(path), sig, case)
+    else:
+        raise ValueError(route)
+    if t is None:
+        return
+    if recs:
+        col.check(t.dtype == np.float64, sig + ":dtype-changed", case, "dtype %r" % (t.dtype,))
+    if not check_to_dict(col, t, genome, dense, sig, case, eq=bits_equal):
+        return
+    light = case.get("light", False)     # quick tier, 2-4 chromosomes: per-chromosome views, histogram, round trip on every 4th case
+    flat = [x for n, _ in genome for x in dense[n]]
+    if finite:
+        got = col.guarded(lambda: (np.sum(t), t.sum()), sig + ":sum", case)
+        if got is not None:
+            col.check(approx_sum_ok(got, flat), "float-track:sum:wrong", case, "got %r expected %r" % (got, math.fsum(flat)))
+        if not light:
+            check_histogram(col, t, genome, dense, "float-track", case, kws=FX_HIST)
+    data = check_backconversion(col, t, genome, dense, sig, case, eq=bits_equal)
+    if light:
+        return
+    if data is not None and route == "get_track" and recs:
+        t2 = col.guarded(lambda: g.get_track(data), "float-track:roundtrip", case)
+        if t2 is not None:
+            check_to_dict(col, t2, genome, dense, "float-track:roundtrip", case, eq=bits_equal)
+    for n, s in genome:
+        rla = col.guarded(lambda: t[n], sig + ":getitem-chromosome", case)
+        if rla is None:
+            continue
+        got = col.guarded(lambda: np.asarray(rla.to_array()).tolist(), sig + ":getitem-chromosome", case)
+        if got is not None:
+            col.check(bits_equal(got, dense[n]), sig + ":getitem-chromosome:wrong-dense", case,
+                      "%s: got %r expected %r" % (n, got, dense[n]))
+        bg = col.guarded(lambda: rla.to_bedgraph(n), sig + ":to_bedgraph", case)
+        if bg is not None:
+            check_backconversion(col, None, [(n, s)], {n: dense[n]}, "float-track:to_bedgraph", case, is_bool=False, data=bg,
+                                 eq=bits_equal)
+
+
+def check_ftrack_stream(col, case, g, genome, recs, dense, sig):
+    import numpy as np
+    from bionumpy.streams import NpDataclassStream
+    from bionumpy.computation_graph import compute
+    split = case.get("split")
+
+    def chunks():
+        if not recs:
+            return NpDataclassStream([])
+        bg = build_bedgraph(recs, "float")
+        if split is None or not (0 < split < len(recs)):
+            return NpDataclassStream([bg])
+        return NpDataclassStream([bg[:split], bg[split:]])
+    data = col.guarded(lambda: compute(g.get_track(chunks()).get_data()), sig, case)
+    if data is not None:
+        check_backconversion(col, None, genome, dense, sig, case, is_bool=False, data=data, eq=bits_equal)
+    d2 = col.guarded(lambda: compute((g.get_track(chunks()) * 3).get_data()), sig + ":mul-scalar", case)
+    if d2 is not None:
+        check_backconversion(col, None, genome, {n: [x * 3 for x in dense[n]] for n, _ in genome}, sig + ":mul-scalar", case,
+                             is_bool=False, data=d2, eq=bits_equal)
+    d3 = col.guarded(lambda: compute((g.get_track(chunks()) > 0.5).get_data()), sig + ":gt-scalar", case)
+    if d3 is not None:
+        check_backconversion(col, None, genome, {n: [x > 0.5 for x in dense[n]] for n, _ in genome}, sig + ":gt-scalar", case,
+                             is_bool=True, data=d3)
+
+
+def gen_ftracks(tier):
+    quick = tier == "quick"
+    pats = list(FX_PATTERNS)
+    for size in range(1, (4 if quick else 6) + 1):
+        for lay in layouts(size):
+            for pat in (pats if size < (4 if quick else 6) else ("fx-mixed", "fx-inf")):
+                recs = fx_records(NAMES, [lay], pat)
+                base = {"kind": "ftrack", "genome": [(NAMES[0], size)], "records": recs}
+                yield dict(base, route="get_track")
+                if FX_PATTERNS[pat][0] and size <= 4 and (not quick or pat == "fx-mixed"):
+                    yield dict(base, route="file")
+                if size <= 3 and pat in ("fx-mixed", "fx-inf"):
+                    yield dict(base, route="stream")
+                if size <= 3 and pat == "fx-mixed":
+                    yield dict(base, route="from_bedgraph")
+    for sizes in ([(3, 2), (2, 3)] if quick else [(3, 2), (2, 3), (3, 3), (4, 3)]):
+        genome = list(zip(NAMES, sizes))
+        k = 0
+        for l1 in layouts(sizes[0]):
+            for l2 in layouts(sizes[1]):
+                for pat in ((("fx-mixed", "fx-inf") if sizes == (3, 2) else ("fx-mixed",)) if quick else
+                            (pats if sizes != (4, 3) else ("fx-mixed", "fx-inf"))):
+                    k += 1
+                    recs = fx_records(NAMES, [l1, l2], pat)
+                    yield {"kind": "ftrack", "genome": genome, "records": recs, "route": "get_track",
+                           "light": bool((quick or sizes == (4, 3)) and k % 4)}
+                    if sizes == (3, 2) and pat == "fx-mixed" and not (quick and k % 4 == 1):
+                        yield {"kind": "ftrack", "genome": genome, "records": recs, "route": "file", "light": quick}
+                        yield {"kind": "ftrack", "genome": genome, "records": recs, "route": "stream",
+                               "split": len(l1) if (len(l1) + len(l2)) % 2 else 1}
+    for names, sizes in ((NAMES_UNSORTED, (3, 2, 3)),) if quick else ((NAMES_UNSORTED, (3, 2, 3)), (NAMES, (2, 4, 1, 3))):
+        genome = list(zip(names, sizes))
+        for k, lays in enumerate(itertools.product(*[chrom_classes(s) for s in sizes])):
+            if quick and k % 2:
+                continue
+            pat = pats[(k // 2 if quick else k) % len(pats)]
+            yield {"kind": "ftrack", "genome": genome, "records": fx_records(names, lays, pat), "route": "get_track",
+                   "light": bool(k % 8 if quick else (len(sizes) == 4 and k % 4))}
+
+
+# expressions over float tracks with inexact values: the same IEEE operation on the same operands gives the same bits,
+# whether it is done on the run values or on the dense array
+FX_SCALARS = (3, 0.1, 0.7)
+
+
+def fexpr_list():
+    A, B = L("A"), L("B")
+    sc = [S(s) for s in FX_SCALARS]
+    pairs = [(x, y) for x in (A, B) for y in (A, B)] + [(x, s) for x in (A, B) for s in sc] + [(s, x) for x in (A, B) for s in sc]
+    d1 = [[op, x, y] for op in ARITH + CMP for x, y in pairs] + [["mul", L("M"), A], ["mul", B, L("K")]]
+    d2 = [["add", ["mul", A, S(3)], B], ["gt", ["add", A, S(0.1)], B], ["mul", ["gt", A, S(0.1)], B], ["sub", ["mul", A, B], A],
+          ["and", ["gt", A, S(0.2)], L("M")], ["or", ["eq", A, S(0.7)], ["lt", B, S(0.1)]], ["not", ["lt", A, B]],
+          ["sub", ["add", A, B], B], ["mul", ["add", A, S(0.1)], S(3)], ["eq", ["add", A, A], ["mul", A, S(2)]]]
+    return d1, d2
+
+
+def fexpr_leaf_sets(tier):
+    g2 = [("chr1", 4), ("chr2", 3)]
+    a_opts = [
+        [("chr1", 0, 1, 0.1), ("chr1", 1, 3, 1234567.891), ("chr1", 3, 4, 0.7), ("chr2", 0, 3, 2.3)],     # no gaps at all
+        [("chr1", 1, 2, 1234567.891), ("chr1", 2, 3, 0.7), ("chr2", 1, 2, 0.2)],                          # gaps everywhere
+        [("chr1", 0, 2, 0.1), ("chr2", 2, 3, 17.17)],
+        [("chr1", 1, 3, INF), ("chr1", 3, 4, 0.1), ("chr2", 0, 1, -INF), ("chr2", 1, 3, 0.3)],
+        [("chr1", 3, 4, 0.001), ("chr2", 0, 1, 123456.789)],                                              # run across the boundary
+        [],
+    ]
+    b_opts = [
+        [("chr1", 0, 4, 0.2), ("chr2", 0, 3, 0.7)],
+        [("chr1", 2, 4, 0.001), ("chr2", 0, 2, 123456.789)],
+        [("chr1", 0, 1, -0.1), ("chr1", 2, 3, 0.1), ("chr2", 1, 3, INF)],
+    ]
+    m_opts = [[("chr1", 1, 3), ("chr2", 0, 1)], [("chr1", 0, 4), ("chr2", 0, 3)], [("chr1", 0, 1), ("chr2", 2, 3)]]
+    k_opts = [[("chr1", 0, 2)], [("chr2", 0, 3), ("chr1", 3, 4)], []]
+    out = []
+    for i, a in enumerate(a_opts):
+        for j, b in enumerate(b_opts):
+            if tier == "quick" and j != i % 3:
+                continue
+            out.append({"genome": g2, "A": a, "A_type": "float", "B": b, "B_type": "float",
+                        "M": m_opts[(i + j) % 3], "K": k_opts[(i + 2 * j) % 3]})
+    out.append({"genome": [("chr1", 6)], "A": [("chr1", 1, 2, 0.1), ("chr1", 2, 4, 1234567.891), ("chr1", 4, 5, 0.7)], "A_type": "float",
+                "B": [("chr1", 0, 2, 0.3), ("chr1", 3, 6, 0.2)], "B_type": "float", "M": [("chr1", 0, 2), ("chr1", 1, 4)], "K": [("chr1", 5, 6)]})
+    out.append({"genome": [("chrB", 2), ("chrA", 1), ("chr10", 3)],
+                "A": [("chrB", 1, 2, 0.7), ("chrA", 0, 1, 1234567.891), ("chr10", 0, 1, 0.1), ("chr10", 2, 3, 0.2)], "A_type": "float",
+                "B": [("chrB", 0, 2, 0.1), ("chr10", 1, 3, 17.17)], "B_type": "float", "M": [("chr10", 0, 2), ("chrB", 1, 2)], "K": [("chrA", 0, 1)]})
+    return out
+
+
+def check_fexpr(col, env, leafcase, e, full=True):
+    import numpy as np
+    case = dict(leafcase, kind="fexpr", expr=e)
+    key = expr_str(e)
+    if any(expr_str(x) in env.bad for x in e[1:] if x[0] != "scalar"):
+        env.bad.add(key)
+        return
+    col.case({"leaves": leafcase, "expr": key, "scope": "inexact floats"}, contract="float-expression:depth%d" % expr_depth(e))
+    rs = root_sig(e)
+    with np.errstate(all="ignore"):         # inf - inf, inf * 0: NaN on both sides
+        try:
+            ops = [env.eval(x) for x in e[1:]]
+        except Exception:
+            return
+        try:
+            exp = operator.invert(ops[0][1]) if e[0] == "not" else BINOPS[e[0]](ops[0][1], ops[1][1])
+        except TypeError:
+            return
+        got = col.guarded(lambda: env.eval(e)[0], "fexpr:" + rs, case)
+    if got is None:
+        return
+    genome, sig = env.genome, "fexpr:" + rs
+    flat = np.asarray(exp).tolist()
+    dense = env.split(flat)
+    col.check((got.dtype == bool) == (exp.dtype == bool), sig + ":boolean-ness-differs", case,
+              "%s: dtype %r, NumPy gives %r" % (key, got.dtype, exp.dtype))
+    if not check_to_dict(col, got, genome, dense, sig, case, eq=bits_equal):
+        env.bad.add(key)
+        return
+    if exp.dtype == bool or all(x == x and abs(x) != INF for x in flat):
+        s = col.guarded(lambda: (np.sum(got), got.sum()), "fexpr:sum", case)
+        if s is not None:
+            ok = (s[0] == sum(flat) and s[1] == sum(flat)) if exp.dtype == bool else approx_sum_ok(s, flat)
+            col.check(ok, "fexpr:sum:wrong:" + ("bool" if exp.dtype == bool else "numeric"), case,
+                      "%s: got %r expected %r" % (key, s, math.fsum(flat)))
+    if full and all(x == x for x in flat):
+        check_backconversion(col, got, genome, dense, "fexpr", case, is_bool=bool(exp.dtype == bool), eq=bits_equal)
+
+
+def run_fexpressions(col, tier):
+    d1, d2 = fexpr_list()
+    for leafcase in fexpr_leaf_sets(tier):
+        if col.out_of_time():
+            return
+        env = col.guarded(lambda: ExprEnv(col, leafcase), "fexpr:leaves", dict(leafcase, kind="fexpr", expr=L("A")))
+        if env is None:
+            continue
+        env.check_leaves(col, leafcase, prefix="fexpr", eq=bits_equal)
+        for e in d1 + d2:       # operands before the expressions that use them
+            safely(col, lambda c: check_fexpr(col, env, leafcase, e), dict(leafcase, kind="fexpr", expr=e), nocol=True)
+
+
+# --------------------------------------------------------------------------------------------- H  coordinates beyond 32 bits
+# A contig, or a genome whose chromosomes are concatenated into one run-length array, of 2**31 .. 2**32+ bases with a
+# handful of intervals.  The dense array is never built: the oracle is the piecewise constant function of the records
+# (evaluated in plain Python at one position per segment between consecutive breakpoints); observed are the runs
+# (starts, ends, values), exact sums, single positions and short dense windows around every breakpoint.
+P31, P32 = 2 ** 31, 2 ** 32
+HG38 = [("chr1", 248956422), ("chr2", 242193529), ("chr3", 198295559), ("chr4", 190214555), ("chr5", 181538259),
+        ("chr6", 170805979), ("chr7", 159345973), ("chr8", 145138636), ("chr9", 138394717), ("chr10", 133797422),
+        ("chr11", 135086622), ("chr12", 133275309), ("chr13", 114364328), ("chr14", 107043718), ("chr15", 101991189),
+        ("chr16", 90338345), ("chr17", 83257441), ("chr18", 80373285), ("chr19", 58617616), ("chr20", 64444167),
+        ("chr21", 46709983), ("chr22", 50818468), ("chrX", 156040895), ("chrY", 57227415), ("chrM", 16569)]
+
+
+def size_class(n):
+    return "lt2p31" if n < P31 else ("lt2p32" if n < P32 else "ge2p32")
+
+
+def merge_runs(runs):
+    """maximal runs of a tiling [(start, stop, value)]: empty runs dropped, equal neighbours joined"""
+    out = []
+    for s, e, v in runs:
+        if e <= s:
+            continue
+        if out and out[-1][1] == s and fbits(out[-1][2]) == fbits(v):
+            out[-1][1] = e
+        else:
+            out.append([s, e, v])
+    return [tuple(r) for r in out]
+
+
+def pw_runs(size, breakpoints, f):
+    """maximal runs of the function f on [0, size) that is constant between consecutive breakpoints"""
+    bps = sorted({0, size} | {b for b in breakpoints if 0 < b < size})
+    return merge_runs([(a, b, f(a)) for a, b in zip(bps, bps[1:])])
+
+
+def runs_equal(a, b):
+    return len(a) == len(b) and all(x[0] == y[0] and x[1] == y[1] and fbits(x[2]) == fbits(y[2]) for x, y in zip(a, b))
+
+
+def tiles(runs, size):
+    return bool(runs) and runs[0][0] == 0 and runs[-1][1] == size and all(a < b for a, b, _ in runs) and \
+        all(runs[i][1] == runs[i + 1][0] for i in range(len(runs) - 1))
+
+
+def probes_of(size, breakpoints, limit=10):
+    ps = sorted({p for b in breakpoints for p in (b - 1, b) if 0 <= p < size} | {0, size - 1})
+    if len(ps) > limit:
+        ps = ps[:limit // 2] + ps[-(limit - limit // 2):]
+    return ps
+
+
+def check_rla_pw(col, rla, size, f, bps, sig, cls, case, windows=True):
+    """one run-length array of length `size` against the piecewise constant function f with breakpoints bps"""
+    import numpy as np
+    exp = pw_runs(size, bps, f)
+    if not col.check(len(rla) == size, sig + ":wrong-length:" + cls, case, "len %r size %r" % (len(rla), size)):
+        return False
+    runs = col.guarded(lambda: list(zip(np.asarray(rla.starts).tolist(), np.asarray(rla.ends).tolist(),
+                                        np.asarray(rla.values).tolist())), sig + ":runs:" + cls, case)
+    if runs is None:
+        return False
+    ok = col.check(tiles(runs, size) and runs_equal(merge_runs(runs), exp), sig + ":runs-wrong:" + cls, case,
+                   "runs %r expected (maximal) %r" % (runs[:12], exp[:12]))
+    for p in probes_of(size, bps):
+        got = col.guarded(lambda: rla[p], sig + ":probe:" + cls, case)
+        if got is not None:
+            ok &= col.check(fbits(got) == fbits(f(p)), sig + ":probe-wrong:" + cls, case, "[%d] = %r expected %r" % (p, got, f(p)))
+    if windows:
+        for b in sorted({0, size} | set(bps))[:8]:
+            lo, hi = max(0, b - 3), min(size, b + 3)
+            got = col.guarded(lambda: np.asarray(rla[lo:hi].to_array()).tolist(), sig + ":window:" + cls, case)
+            if got is not None:
+                want = [f(p) for p in range(lo, hi)]
+                ok &= col.check(bits_equal(got, want), sig + ":window-wrong:" + cls, case,
+                                "[%d:%d].to_array() = %r expected %r" % (lo, hi, got, want))
+    if all(isinstance(v, (bool, int)) for _, _, v in exp):
+        total = sum((e - s) * int(v) for s, e, v in exp)
+        got = col.guarded(lambda: (int(rla.sum()), int(np.sum(rla))), sig + ":sum:" + cls, case)
+        if got is not None:
+            ok &= col.check(got == (total, total), sig + ":sum-wrong:" + cls, case, "got %r expected %r" % (got, total))
+        if all(isinstance(v, bool) for _, _, v in exp):
+            got = col.guarded(lambda: int((~rla).sum()), sig + ":invert:" + cls, case)
+            if got is not None:
+                ok &= col.check(got == size - total, sig + ":invert-sum-wrong:" + cls, case, "got %r expected %r" % (got, size - total))
+    return ok
+
+
+def f_records(recs, default):
+    """position -> value of the (non-overlapping) record that contains it, default in the gaps"""
+    def f(p):
+        for s, e, v in recs:
+            if s <= p < e:
+                return v
+        return default
+    return f
+
+
+BIG_FI_MODES = {"scalar-True": (True, False), "scalar-int": (3, 0), "scalar-float": (0.1, 0.0), "scalar-int-default5": (1, 5)}
+BIG_BG_PATTERNS = {"int-alt": VALUE_PATTERNS["int-alt"], "fx-mixed": ("float", FX_PATTERNS["fx-mixed"][1])}
+
+
+def check_big_contig(col, case):
+    import numpy as np
+    from bionumpy.datatypes import BedGraph, Interval
+    from bionumpy.arithmetics.intervals import GenomicRunLengthArray, get_boolean_mask, get_pileup
+    api, size, ivs = case["api"], case["size"], [tuple(x) for x in case["intervals"]]
+    col.case(case, contract="big-contig:" + api)
+    cls = size_class(size)
+    sig = "big:" + api
+    bps = [p for iv in ivs for p in iv]
+    starts = np.array([s for s, _ in ivs], dtype=np.int64)
+    ends = np.array([e for _, e in ivs], dtype=np.int64)
+    if api == "from_intervals":
+        v, default = BIG_FI_MODES[case["mode"]]
+        f = f_records([(s, e, v) for s, e in ivs], default)
+        rla = col.guarded(lambda: GenomicRunLengthArray.from_intervals(starts, ends, size, values=v, default_value=default),
+                          sig + ":" + cls, case)
+    elif api == "from_bedgraph":
+        vtype, pf = BIG_BG_PATTERNS[case["pattern"]]
+        vals = [pf(i) for i in range(len(ivs))]
+        f = f_records([(s, e, x) for (s, e), x in zip(ivs, vals)], 0)
+        bg = BedGraph(["c"] * len(ivs), starts, ends, np_values(vals, vtype))
+        rla = col.guarded(lambda: GenomicRunLengthArray.from_bedgraph(bg, size), sig + ":" + cls, case)
+    elif api in ("get_boolean_mask", "get_pileup"):
+        if api == "get_boolean_mask":
+            def f(p):
+                return any(s <= p < e for s, e in ivs)
+        else:
+            def f(p):
+                return sum(1 for s, e in ivs if s <= p < e)
+        iv = Interval(["c"] * len(ivs), starts, ends) if ivs else Interval.empty()
+        fn = get_boolean_mask if api == "get_boolean_mask" else get_pileup
+        rla = col.guarded(lambda: fn(iv, size), sig + ":" + cls, case)
+    else:
+        raise ValueError(api)
+    if rla is None:
+        return
+    if api in ("get_boolean_mask",) or (api == "from_intervals" and case["mode"] == "scalar-True"):
+        col.check(rla.dtype == bool, sig + ":not-boolean:" + cls, case, "dtype %r" % (rla.dtype,))
+    check_rla_pw(col, rla, size, f, bps, sig, cls, case)
+
+
+BIG_SIZES = (P31 - 1, P31, P31 + 1, P32 - 1, P32, P32 + 7, 3_000_001_000)
+
+
+def big_candidates(size):
+    c = [(0, 7), (10, 20), (size - 30, size - 12), (size - 9, size)]
+    for m in (P31, P32):
+        c += [(m - 40, m - 25), (m - 5, m + 5), (m + 8, m + 20)]
+    return sorted({(s, e) for s, e in c if 0 <= s < e <= size})
+
+
+def subsets_upto(items, k):
+    for n in range(k + 1):
+        for c in itertools.combinations(items, n):
+            yield list(c)
+
+
+def gen_big_contig(tier):
+    quick = tier == "quick"
+    for size in BIG_SIZES:
+        cand = big_candidates(size)
+        for lay in subsets_upto(cand, 2 if quick else 3):
+            if any(lay[i][1] >= lay[i + 1][0] for i in range(len(lay) - 1)):
+                continue            # sorted, non-overlapping, not touching (touching: the known small-scope finding)
+            for mode in BIG_FI_MODES:
+                yield {"kind": "big_contig", "api": "from_intervals", "size": size, "intervals": lay, "mode": mode}
+            for pat in BIG_BG_PATTERNS:
+                yield {"kind": "big_contig", "api": "from_bedgraph", "size": size, "intervals": lay, "pattern": pat}
+        # touching records are legal in a bedGraph
+        for m in (P31, P32):
+            if m + 9 <= size:
+                for pat in BIG_BG_PATTERNS:
+                    yield {"kind": "big_contig", "api": "from_bedgraph", "size": size, "pattern": pat,
+                           "intervals": [(0, 4), (4, 9), (m - 6, m), (m, m + 9)]}
+        # any order, overlapping, nested, duplicated
+        cover = cand + [(5, 15)] + [(m - 2, m + 12) for m in (P31, P32) if m + 12 <= size]
+        for k, ivs in enumerate(subsets_upto(cover, 2 if quick else 3)):
+            if k % 2:
+                ivs = ivs[::-1]
+            for api in ("get_boolean_mask", "get_pileup"):
+                yield {"kind": "big_contig", "api": api, "size": size, "intervals": ivs}
+        yield {"kind": "big_contig", "api": "get_pileup", "size": size, "intervals": [cand[-1], cand[-1], cand[0]]}
+
+
+# ---- genomes whose concatenation does not fit 32 bits
+BIG_GENOMES = {
+    "2x2^30-1": [("chr1", 2 ** 30), ("chr2", 2 ** 30 - 1)],                       # total 2**31 - 1: the last size that fits
+    "2x2^30": [("chr1", 2 ** 30), ("chr2", 2 ** 30)],                              # total 2**31
+    "2x2e9": [("chr1", 2_000_000_000), ("chr2", 2_000_000_000)],                   # second offset in (2**31, 2**32)
+    "3e9+small+2^32": [("chrB", 3_000_000_000), ("chrA", 16569), ("chr10", 2 ** 32)],    # single contigs >= 2**31, 2**32
+    "hg38": HG38,                                                                   # every contig < 2**31, total 3.09e9
+}
+BIG_HOT = {"hg38": ("chr1", "chr17", "chrX", "chrM")}      # chromosomes that get intervals (chr17.. lie beyond 2**31)
+
+
+def genome_candidates(gname, per_chrom=4):
+    out = []
+    for n, s in BIG_GENOMES[gname]:
+        if n not in BIG_HOT.get(gname, [n]):
+            continue
+        c = [(0, 10), (5, 30), (s - 10, s), (s // 2, s // 2 + 100), (s - 50, s - 20)][:per_chrom]
+        out += [(n, a, b) for a, b in c]
+    return out
+
+
+def f_genome(kind, items):
+    """(chrom, pos) -> value of the genome-wide array described by intervals / records"""
+    if kind == "mask":
+        return lambda c, p: any(n == c and a <= p < b for n, a, b in items)
+    if kind == "pileup":
+        return lambda c, p: sum(1 for n, a, b in items if n == c and a <= p < b)
+    return lambda c, p: next((v for n, a, b, v in items if n == c and a <= p < b), 0)
+
+
+def check_genome_pw(col, arr, genome, f, bps, sig, cls, case, is_bool, per_chrom=True):
+    """a genome-wide array against f(chrom, pos): sums, get_data() records, per-chromosome runs, probed positions"""
+    import numpy as np
+    exp = {n: pw_runs(s, bps.get(n, []), lambda p: f(n, p)) for n, s in genome}
+    ok = True
+    if all(isinstance(v, (bool, int)) for n, _ in genome for _, _, v in exp[n]):
+        total = sum((e - s) * int(v) for n, _ in genome for s, e, v in exp[n])
+        got = col.guarded(lambda: (int(arr.sum()), int(np.sum(arr))), sig + ":sum:" + cls, case)
+        if got is not None:
+            ok &= col.check(got == (total, total), sig + ":sum-wrong:" + cls, case, "got %r expected %r" % (got, total))
+        if is_bool:
+            size = sum(s for _, s in genome)
+            got = col.guarded(lambda: int((~arr).sum()), sig + ":invert:" + cls, case)
+            if got is not None:
+                ok &= col.check(got == size - total, sig + ":invert-sum-wrong:" + cls, case, "got %r expected %r" % (got, size - total))
+    data = col.guarded(lambda: arr.get_data(), sig + ":get_data:" + cls, case)
+    rows = None
+    if data is not None:
+        def get_rows():
+            chroms = chrom_strings(data.chromosome)
+            vals = np.asarray(data.value).tolist() if hasattr(data, "value") else [True] * len(chroms)
+            return list(zip(chroms, np.asarray(data.start).tolist(), np.asarray(data.stop).tolist(), vals))
+        rows = col.guarded(get_rows, sig + ":get_data:rows:" + cls, case)
+    if rows is not None:
+        if not is_bool:
+            ok &= col.check(hasattr(data, "value"), sig + ":get_data:values-lost:" + cls, case, "got %r" % type(data).__name__)
+        order = {n: i for i, (n, _) in enumerate(genome)}
+        sizes = dict(genome)
+        wf = all(c in order and 0 <= a <= b <= sizes[c] for c, a, b, _ in rows) and \
+            all(order[x[0]] < order[y[0]] or (x[0] == y[0] and x[2] <= y[1]) for x, y in zip(rows, rows[1:]))
+        ok &= col.check(wf, sig + ":get_data:records-not-ordered-disjoint-inside:" + cls, case, "rows %r" % (rows[:10],))
+        if wf:
+            for n, s in genome:
+                tiled, p = [], 0
+                for _, a, b, v in (r for r in rows if r[0] == n):
+                    tiled += [(p, a, False if is_bool else 0), (a, b, v)]
+                    p = b
+                tiled.append((p, s, False if is_bool else 0))
+                ok &= col.check(runs_equal(merge_runs(tiled), exp[n]), sig + ":get_data:runs-wrong:" + cls, case,
+                                "%s: records %r expected (maximal runs) %r" % (n, [r for r in rows if r[0] == n][:10], exp[n][:10]))
+    if per_chrom:
+        for n, s in genome:
+            if len(genome) > 6 and not bps.get(n) and n != genome[-1][0]:
+                continue        # many chromosomes: the ones with records, and the last one
+            rla = col.guarded(lambda: arr[n], sig + ":getitem-chromosome:" + cls, case)
+            if rla is not None:
+                ok &= check_rla_pw(col, rla, s, lambda p: f(n, p), bps.get(n, []), sig + ":getitem-chromosome", cls, case,
+                                   windows=bool(bps.get(n)))
+    return ok
+
+
+def bps_of(items):
+    out = {}
+    for it in items:
+        out.setdefault(it[0], []).extend([it[1], it[2]])
+    return out
+
+
+BIG_EXPRS = {
+    # name: (on genomic arrays, on the values at one position, boolean result?)   M, K masks; P pileup of M's intervals; T track
+    "M&K": (lambda M, K, P, T: M & K, lambda m, k, p, t: m and k, True),
+    "M|K": (lambda M, K, P, T: M | K, lambda m, k, p, t: m or k, True),
+    "~M": (lambda M, K, P, T: ~M, lambda m, k, p, t: not m, True),
+    "~M&K": (lambda M, K, P, T: ~M & K, lambda m, k, p, t: (not m) and k, True),
+    "P*2": (lambda M, K, P, T: P * 2, lambda m, k, p, t: p * 2, False),
+    "P+T": (lambda M, K, P, T: P + T, lambda m, k, p, t: p + t, False),
+    "T*3": (lambda M, K, P, T: T * 3, lambda m, k, p, t: t * 3, False),
+    "T*K": (lambda M, K, P, T: T * K, lambda m, k, p, t: t * k, False),
+    "T>1": (lambda M, K, P, T: T > 1, lambda m, k, p, t: t > 1, True),
+    "(P>1)|K": (lambda M, K, P, T: (P > 1) | K, lambda m, k, p, t: (p > 1) or k, True),
+    "P==T": (lambda M, K, P, T: P == T, lambda m, k, p, t: p == t, True),
+    "T-T": (lambda M, K, P, T: T - T, lambda m, k, p, t: t - t, False),
+}
+
+
+_BIG_GENOME_OBJECTS = {}
+
+
+def big_genome_object(gname):
+    """the Genome objects of the 5 big genomes are built once (25 chromosome names are slow to encode)"""
+    if gname not in _BIG_GENOME_OBJECTS:
+        _BIG_GENOME_OBJECTS[gname] = make_genome(BIG_GENOMES[gname])
+    return _BIG_GENOME_OBJECTS[gname]
+
+
+def check_big_genome(col, case):
+    import numpy as np
+    gname, what = case["genome"], case["what"]
+    genome = BIG_GENOMES[gname]
+    cls = size_class(sum(s for _, s in genome))
+    col.case(case, contract="big-genome:" + what)
+    g = col.guarded(lambda: big_genome_object(gname), "big:genome:construct:" + cls, case)
+    if g is None:
+        return
+    sig = "big:genome:" + what
+    ivs = [tuple(x) for x in case.get("intervals", [])]
+    if what in ("get_mask", "get_pileup"):
+        fn = (lambda: g.get_intervals(build_intervals(ivs)).get_mask()) if what == "get_mask" else \
+            (lambda: g.get_intervals(build_intervals(ivs)).get_pileup())
+        arr = col.guarded(fn, sig + ":" + cls, case)
+        if arr is None:
+            return
+        if what == "get_mask":
+            col.check(arr.dtype == bool, sig + ":mask-not-boolean:" + cls, case, "dtype %r" % (arr.dtype,))
+        f = f_genome("mask" if what == "get_mask" else "pileup", ivs)
+        ok = check_genome_pw(col, arr, genome, f, bps_of(ivs), sig, cls, case, is_bool=(what == "get_mask"))
+        if ok and what == "get_mask" and arr.dtype == bool and case.get("roundtrip", True):
+            from bionumpy.genomic_data import GenomicIntervals
+            m2 = col.guarded(lambda: GenomicIntervals.from_track(arr).get_mask(), "big:genome:from_track:get_mask:" + cls, case)
+            if m2 is not None:
+                check_genome_pw(col, m2, genome, f, bps_of(ivs), "big:genome:from_track:get_mask", cls, case, is_bool=True, per_chrom=False)
+        return
+    recs = [tuple(x) for x in case.get("records", [])]
+    vtype = case.get("vtype", "int")
+    if what == "get_track":
+        arr = col.guarded(lambda: g.get_track(build_bedgraph(recs, vtype)), sig + ":" + cls, case)
+        if arr is not None:
+            check_genome_pw(col, arr, genome, f_genome("track", recs), bps_of(recs), sig, cls, case, is_bool=False)
+        return
+    if what == "expr":
+        ivs2 = [tuple(x) for x in case["intervals2"]]
+        leaves = col.guarded(lambda: (g.get_intervals(build_intervals(ivs)).get_mask(), g.get_intervals(build_intervals(ivs2)).get_mask(),
+                                      g.get_intervals(build_intervals(ivs)).get_pileup(), g.get_track(build_bedgraph(recs, vtype))),
+                             "big:genome:expr:leaves:" + cls, case)
+        if leaves is None:
+            return
+        fm, fk, fp, ft = f_genome("mask", ivs), f_genome("mask", ivs2), f_genome("pileup", ivs), f_genome("track", recs)
+        bps = bps_of(ivs + ivs2 + recs)
+        on_arrays, on_values, is_bool = BIG_EXPRS[case["expr"]]
+        got = col.guarded(lambda: on_arrays(*leaves), "big:genome:expr:%s:%s" % (case["expr"], cls), case)
+        if got is not None:
+            col.check((got.dtype == bool) == is_bool, "big:genome:expr:%s:boolean-ness-differs:%s" % (case["expr"], cls), case,
+                      "dtype %r" % (got.dtype,))
+            check_genome_pw(col, got, genome, lambda c, p: on_values(fm(c, p), fk(c, p), fp(c, p), ft(c, p)), bps,
+                            "big:genome:expr:" + case["expr"], cls, case, is_bool=is_bool, per_chrom=False)
+        return
+    raise ValueError(what)
+
+
+def big_record_sets(gname):
+    """sorted, non-overlapping bedGraph records over the genome (first at 0 / later, last at the very end / before)"""
+    genome = BIG_GENOMES[gname]
+    hot = [(n, s) for n, s in genome if n in BIG_HOT.get(gname, [n])]
+    (n0, s0), (n1, s1) = hot[0], hot[-1]
+    for vtype, v in (("int", (1, 2, 3, 2)), ("float", (0.1, 1234567.891, 0.7, 2.3))):
+        yield vtype, [(n0, 0, 10, v[0]), (n0, 10, 25, v[1]), (n1, s1 // 2, s1 // 2 + 7, v[2]), (n1, s1 - 5, s1, v[3])]
+        yield vtype, [(n0, 3, 8, v[0]), (n0, s0 - 4, s0, v[1]), (n1, 0, 6, v[2]), (n1, s1 - 20, s1 - 10, v[3])]
+        yield vtype, [(n1, s1 - 9, s1 - 2, v[1])]
+        yield vtype, [(n, s // 3, s // 3 + 11, v[i % 4]) for i, (n, s) in enumerate(hot)]
+    yield "int", []
+
+
+def gen_big_genome(tier):
+    quick = tier == "quick"
+    for gname in BIG_GENOMES:
+        cand = genome_candidates(gname, (2 if gname == "hg38" else 3) if quick else (3 if gname == "hg38" else 5))
+        for k, ivs in enumerate(subsets_upto(cand, 2 if quick else 3)):
+            if k % 2:
+                ivs = ivs[::-1]
+            if not quick and len(ivs) == 3 and k % 3:
+                continue
+            yield {"kind": "big_genome", "genome": gname, "what": "get_mask", "intervals": ivs, "roundtrip": not (quick and k % 4)}
+            yield {"kind": "big_genome", "genome": gname, "what": "get_pileup", "intervals": ivs}
+        rsets = list(big_record_sets(gname))
+        for vtype, recs in rsets:
+            yield {"kind": "big_genome", "genome": gname, "what": "get_track", "records": recs, "vtype": vtype}
+        full = genome_candidates(gname, 5)
+        combos = [(full[0:2] + full[-2:], full[1:3] + full[-1:]), (full[-1:] + full[:1], full[3:5]), ([], full[2:4])]
+        for ci, (ivs, ivs2) in enumerate(combos if not quick else combos[:1]):
+            for ri, (vtype, recs) in enumerate(rsets):
+                if ri % 4 != ci or (quick and ri == 8):
+                    continue
+                for name in BIG_EXPRS:
+                    yield {"kind": "big_genome", "genome": gname, "what": "expr", "expr": name, "intervals": ivs, "intervals2": ivs2,
+                           "records": recs, "vtype": vtype}
+
+
 # --------------------------------------------------------------------------------------------- driver
 CHECKERS = {"to_array": check_to_array, "from_intervals": check_from_intervals, "rla_from_bedgraph": check_rla_from_bedgraph,
-            "cover": check_cover}
+            "cover": check_cover, "to_array_bits": check_to_array_bits, "big_contig": check_big_contig, "big_genome": check_big_genome}
 
 
 def safely(col, fn, case, *args, nocol=False):
@@ -855,16 +1577,30 @@ def safely(col, fn, case, *args, nocol=False):
 
 def run(tier="quick", seed=0):
     quick = tier == "quick"
-    col = Collector(PID, tier, seed,
+    # budget: the scopes G and H (added later) cost about 10 s in the quick tier
+    col = Collector(PID, tier, seed, budget_s=80 if quick else None, rule=
                     "exhaustive over: run-length arrays (every composition of n<=%d x 3 value patterns x 7 dtypes); every sorted "
                     "non-overlapping interval layout on sizes 1..%d x 8 value modes (from_intervals) and x 5 value patterns "
                     "(from_bedgraph, size given / None); bedGraph tracks on 1 chromosome (every layout), 2 chromosomes (every pair "
                     "of layouts), 3-4 chromosomes (every combination of 2..8 layout classes per chromosome) by get_track / file / "
                     "stream; interval multisets of <=3 (thorough: 4) intervals for mask and pileup; every depth-1 expression of the "
                     "typed grammar on %d leaf sets, depth-2 expressions %s. distinct = distinct (input, operation); every case "
-                    "builds an array from records and compares with an independently expanded dense array"
+                    "builds an array from records and compares with an independently expanded dense array. "
+                    "Floats that are not exactly summable (decimal fractions of different magnitude, +-inf, NaN at run-length "
+                    "level), compared by float64 bit pattern: run-length arrays (compositions of n<=%d x 3 patterns x %d palettes x "
+                    "float16/32/64), bedGraph tracks on 1 chromosome (every layout, size<=%d), 2 chromosomes (every pair of layouts), "
+                    "3-4 chromosomes (layout classes) by get_track / from_bedgraph / file / stream, %d expressions (depth 1: every "
+                    "{+,-,*,<,>,==} over two tracks and 3 scalars; 10 of depth 2) on %d leaf sets. Coordinates beyond 32 bits (dense "
+                    "array never built; runs, exact sums, probed positions and short windows against the piecewise constant function "
+                    "of the records): contigs of %d sizes around 2**31 and 2**32 x every set of <=%d non-touching intervals out of <=10 "
+                    "candidates at 0, the size and the powers of two x 4 scalar value modes (from_intervals), 2 value patterns "
+                    "(from_bedgraph), any-order overlapping sets (get_boolean_mask, get_pileup); 5 genomes whose concatenation is "
+                    "2**31-1 .. 8.3e9 bases (incl. hg38 sizes): mask / pileup of every set of <=%d candidate intervals, 9 bedGraph "
+                    "tracks, 12 expressions over masks, pileup and track"
                     % (5 if quick else 7, 6 if quick else 8, len(leaf_sets(tier)),
-                       "sampled (stride + seed) on 5 leaf sets" if quick else "exhaustive on 6 leaf sets"))
+                       "sampled (stride + seed) on 5 leaf sets" if quick else "exhaustive on 6 leaf sets",
+                       5 if quick else 7, 3 if quick else 4, 4 if quick else 6, sum(len(x) for x in fexpr_list()),
+                       len(fexpr_leaf_sets(tier)), len(BIG_SIZES), 2 if quick else 3, 2 if quick else 3))
     col.bounds = {"to_array": {"n": "0..%d" % (5 if quick else 7), "dtypes": list(DTYPE_PALETTES)},
                   "from_intervals": {"size": "1..%d" % (6 if quick else 8), "modes": list(FI_MODES)},
                   "rla_from_bedgraph": {"size": "1..%d" % (5 if quick else 7), "patterns": list(VALUE_PATTERNS), "size_arg": ["size", "None"]},
@@ -872,13 +1608,27 @@ def run(tier="quick", seed=0):
                   "cover": {"chromosomes": "1..%d" % (3 if quick else 4), "intervals": "0..%d, any order, overlapping allowed" % (3 if quick else 4)},
                   "expr": {"depth": 2, "ops": list(BINOPS) + ["not"], "scalars": list(SCALARS1) + [True, False],
                            "reductions": ["np.sum", ".sum()", "np.histogram (default, bins+range, explicit edges)"],
-                           "depth2": "sampled" if quick else "exhaustive over the typed grammar"}}
+                           "depth2": "sampled" if quick else "exhaustive over the typed grammar"},
+                  "inexact floats": {"values": sorted({v for p in FBIT_PALETTES for v in p}) + ["-1234.5678", "123456.789"],
+                                     "to_array n": "1..%d" % (5 if quick else 7), "dtypes": list(FBIT_UINT),
+                                     "track chromosomes": "1..%d" % (3 if quick else 4), "track chromosome size": "1..%d" % (4 if quick else 6),
+                                     "routes": ["get_track", "from_bedgraph", "file (finite values)", "stream"],
+                                     "expr": {"depth": 2, "scalars": list(FX_SCALARS), "equality": "float64 bit pattern (NaN = NaN, -0.0 = 0.0)"}},
+                  "big coordinates": {"contig sizes": list(BIG_SIZES), "intervals per contig": "0..%d" % (2 if quick else 3),
+                                      "genomes": {k: sum(s for _, s in v) for k, v in BIG_GENOMES.items()},
+                                      "intervals per genome": "0..%d" % (2 if quick else 3), "expressions": list(BIG_EXPRS),
+                                      "not in scope": "from_intervals with an array of values (raises on every input, known finding)"}}
     with TmpDir() as tmp:
-        for gen in (gen_to_array, gen_from_intervals, gen_rla_from_bedgraph):
+        for gen in (gen_to_array, gen_from_intervals, gen_rla_from_bedgraph, gen_to_array_bits, gen_big_contig, gen_big_genome):
             for case in gen(tier):
                 safely(col, CHECKERS[case["kind"]], case)
             if col.out_of_time():
                 return col.result()
+        for n, case in enumerate(gen_ftracks(tier)):
+            safely(col, check_ftrack, case, tmp)
+            if n % 100 == 0 and col.out_of_time():
+                return col.result()
+        run_fexpressions(col, tier)
         for n, case in enumerate(gen_tracks(tier)):
             safely(col, check_track, case, tmp)
             if n % 100 == 0 and col.out_of_time():
@@ -899,6 +1649,18 @@ def replay(case):
     with TmpDir() as tmp:
         if kind == "track":
             check_track(col, case, tmp)
+        elif kind == "ftrack":
+            check_ftrack(col, case, tmp)
+        elif kind == "fexpr":
+            import numpy as np
+            leafcase = {k: v for k, v in case.items() if k not in ("kind", "expr")}
+            env = col.guarded(lambda: ExprEnv(col, leafcase), "fexpr:leaves", case)
+            if env is not None:
+                env.check_leaves(col, leafcase, prefix="fexpr", eq=bits_equal)
+                if case["expr"][0] != "leaf":
+                    # operands first: an expression whose operand is wrong is reported at the operand
+                    for sub in [x for x in case["expr"][1:] if x[0] not in ("leaf", "scalar")] + [case["expr"]]:
+                        check_fexpr(col, env, leafcase, sub)
         elif kind == "expr":
             leafcase = {k: v for k, v in case.items() if k not in ("kind", "expr")}
             env = col.guarded(lambda: ExprEnv(col, leafcase), "expr:leaves", case)
